@@ -86,6 +86,12 @@ CLAIMED = {
                 note="One open known finding (unknown configuration key dropped before it reaches _check_parameters) is reported as KNOWN-FINDING. Broadcast / "
                      "idempotence / no-padding of __get_thresholds and __get_nested_thresholds: bounded native harness (all nestings up to length 3, mixed types). "
                      "CriticalObjectFilterConfig / PerceptionPassFailConfig / SensingEvaluationConfig._extract_params: harness only.", ref="5/C15"),
+    "C18": dict(text="Proved from the code: argument dispatch and frame labelling of HomogeneousMatrix.__init__/dot/inv/transform (every calling convention) "
+                     "and the registry logic of TransformDict.transform built by the real constructor (X->X returns its argument, registered X->Y first, else the "
+                     "inverse of Y->X, else KeyError; a string source frame behaves as the member it names). Each result is a stated term of an abstract rigid-matrix "
+                     "algebra; inverse round trip and composition are lemmas over those terms.",
+                note="Relative to the abstract algebra (product, inverse, hom/projections) of externals/mat.py; the lemmas' algebraic hypotheses are assumed ground "
+                     "instances. Numerical agreement with numpy/pyquaternion is covered by the native harness only (bounded, random rigid transforms).", ref="5/C18"),
 }
 NA_REASON = "check not built yet in this session (planned in DESIGN.md section 5); not claimed"
 ALL = [f"C{n:02d}" for n in range(1, 21)]
